@@ -57,14 +57,19 @@ def _is_single(topo, el):
     return el in _origin_names(topo) or el in {d for d, _ in topo.dests.values()}
 
 
-def float_inputs(topo, env, style="array"):
+def float_inputs(topo, env, style="array", int_states=False):
+    """int_states: link densities/speeds as int64 arrays (whole numbers) -- array dtype is outside the symbolic model,
+    used only by plain-execution companions"""
     X = {}
     for grp, el, var, n in T_.input_layout(topo):
         base = T_.zname(var, el)
         if _is_single(topo, el):
             X[(el, var)] = float(env[base]) if style == "scalar" else np.array([env[base]], dtype=float)
         else:
-            X[(el, var)] = np.array([env[f"{base}[{i}]"] for i in range(n)], dtype=float)
+            if int_states and var in ("rho", "v"):
+                X[(el, var)] = np.array([int(round(env[f"{base}[{i}]"])) for i in range(n)], dtype=np.int64)
+            else:
+                X[(el, var)] = np.array([env[f"{base}[{i}]"] for i in range(n)], dtype=float)
     return X
 
 
@@ -161,7 +166,7 @@ def casadi_engine(symtype):
     return Engine(symtype)
 
 
-def cas_params(topo, symtype, numeric=None):
+def cas_params(topo, symtype, numeric=None, same_display_names=False):
     """parameter dict for the CasADi side: symbols except names in `numeric` (name->number)."""
     import casadi as cs
 
@@ -171,16 +176,17 @@ def cas_params(topo, symtype, numeric=None):
         if numeric and n in numeric:
             P[n] = numeric[n]
         else:
-            P[n] = XX.sym(n)
+            # distinct symbols may carry the same display name (e.g. one 'rho_crit' symbol per link from a factory)
+            P[n] = XX.sym(n.split("_")[0] if same_display_names else n)
             symbolic[n] = P[n]
     return P, symbolic
 
 
 def cas_function(topo, symtype="SX", numeric=None, compact=0, more_out=False, flags=None, order=None,
-                 declare=None, dual_route=False, rename=None, builder=None):
+                 declare=None, dual_route=False, rename=None, builder=None, same_display_names=False):
     """real step with the CasADi engine + to_function.  Returns (F, built, P, symbolic-params).
     `declare`: optional ordered list of parameter names to declare (default: all symbolic ones)."""
-    P, symbolic = cas_params(topo, symtype, numeric)
+    P, symbolic = cas_params(topo, symtype, numeric, same_display_names)
     built = builder(topo, P, casadi_engine(symtype)) if builder else T_.build(topo, P, order=order, rename=rename)
     eng = casadi_engine(symtype)
     kw = T_.model_kwargs(topo, P)
